@@ -185,14 +185,14 @@ def obligations(targets, tier):
 KERNELS = []   # filled by extra_gen: dicts(name, nvars, nout, statement pieces)
 
 
-def _cone(build, consts, reg_name, data_port, data_bits, what):
+def _cone(build, consts, reg_name, data_port, data_bits, what, reg_width=None):
     """Extract (a) next-state cone of register `reg_name`, or (b) the cone of output port `what`,
     from the elaborated netlist of build() with control inputs fixed to `consts`.
     Variables: register bits 0..w-1, then data bits."""
     elab, ins, outs = build()
     ports = {n: (s, 'i') for n, s in ins}; ports.update({n: (s, 'o') for n, s in outs})
     nl = nir2coq.elaborate(elab, ports)
-    ci, cell = xtgen.ff_of_signal(nl, reg_name)
+    ci, cell = xtgen.ff_of_signal(nl, reg_name, reg_width)
     w = len(cell.data)
     top = nl.top
     consts = dict(consts)
@@ -246,20 +246,20 @@ def extra_gen(bdir, tier):
     t = Signal(11, name="t")
     emit("crc5_usb3", xtgen.ast_to_xt(compute_usb_crc5(t), {id(t): 0}))
     # USB2 CRC16: netlist cones
-    x, w = _cone(_usb2_crc16, dict(start=0, rx_valid=1, tx_valid=0), "crc", "rx_data", 8, "next"); emit("crc16_usb2_rx", x)
-    x, w = _cone(_usb2_crc16, dict(start=0, rx_valid=0, tx_valid=1), "crc", "tx_data", 8, "next"); emit("crc16_usb2_tx", x)
-    x, w = _cone(_usb2_crc16, dict(start=0, rx_valid=0, tx_valid=0), "crc", None, 0, "crc"); emit("crc16_usb2_out", x)
+    x, w = _cone(_usb2_crc16, dict(start=0, rx_valid=1, tx_valid=0), "crc", "rx_data", 8, "next", 16); emit("crc16_usb2_rx", x)
+    x, w = _cone(_usb2_crc16, dict(start=0, rx_valid=0, tx_valid=1), "crc", "tx_data", 8, "next", 16); emit("crc16_usb2_tx", x)
+    x, w = _cone(_usb2_crc16, dict(start=0, rx_valid=0, tx_valid=0), "crc", None, 0, "crc", 16); emit("crc16_usb2_out", x)
     # USB3 header CRC16
-    x, w = _cone(_usb3_crc16, dict(clear=0, advance_crc=1), "crc", "data_input", 32, "next"); emit("crc16_usb3_next", x)
-    x, w = _cone(_usb3_crc16, dict(clear=0, advance_crc=0), "crc", None, 0, "crc"); emit("crc16_usb3_out", x)
+    x, w = _cone(_usb3_crc16, dict(clear=0, advance_crc=1), "crc", "data_input", 32, "next", 16); emit("crc16_usb3_next", x)
+    x, w = _cone(_usb3_crc16, dict(clear=0, advance_crc=0), "crc", None, 0, "crc", 16); emit("crc16_usb3_out", x)
     # USB3 CRC32
     z = dict(clear=0, advance_word=0, advance_3B=0, advance_2B=0, advance_1B=0)
     for nm, port, nb in (("word", "advance_word", 32), ("3B", "advance_3B", 24), ("2B", "advance_2B", 16), ("1B", "advance_1B", 8)):
         c = dict(z); c[port] = 1
-        x, w = _cone(_usb3_crc32, c, "crc", "data_input", nb, "next"); emit(f"crc32_{nm}", x)
-    x, w = _cone(_usb3_crc32, z, "crc", None, 0, "crc"); emit("crc32_out", x)
+        x, w = _cone(_usb3_crc32, c, "crc", "data_input", nb, "next", 32); emit(f"crc32_{nm}", x)
+    x, w = _cone(_usb3_crc32, z, "crc", None, 0, "crc", 32); emit("crc32_out", x)
     for nm, nb in (("3B", 24), ("2B", 16), ("1B", 8)):
-        x, w = _cone(_usb3_crc32, z, "crc", "data_input", nb, f"next_crc_{nm}"); emit(f"crc32_out_{nm}", x)
+        x, w = _cone(_usb3_crc32, z, "crc", "data_input", nb, f"next_crc_{nm}", 32); emit(f"crc32_out_{nm}", x)
     p = bdir / "Gen_kernels.v"
     p.write_text("\n".join(L) + "\n")
     return [p]
